@@ -35,6 +35,7 @@ EXPLANATION = (
     "encoding.IMMEDIATE_BITS; the simplification loop must halve n and decrement d together; the final filter bound is compared with the "
     "largest exponent reachable for a tolerance. In the builder, the float-angle arm must emit one rotation per returned step with that "
     "step's n and d on the same instruction and qubit, and Qubit.rot_X/Y/Z must forward `angle`."
+    ' C19.E executes the rotation builder with get_angle_spec_from_float modelled; further conjuncts of the expansion loop guard are judged (a step cap K is accepted iff 2*(2/n_max)^K is within the smallest tolerance in scope); a step simplification inside the expansion loop is judged by C19.S in place.'
 )
 LEVEL_TEXT = (
     "Static analysis, partial: the structural necessary conditions of the tolerance clause (greedy invariant, encodability guard, "
